@@ -47,6 +47,7 @@ Inductive mop :=
 | MBufShrink         (* dataBuf.shrink_to_fit() *)
 | MBufResize         (* dataBuf.resize(size, val) *)
 | MOtherReset        (* other.reset() *)
+| MSelfReset         (* this->reset() *)
 | MArrNew            (* array := std::shared_ptr<T>(new T[n], std::default_delete<T[]>()), n the size argument *)
 | MMemcpy (guarded bytes_ok : bool)
                      (* memcpy(array.get(), argument data, n * sizeof(T)); guarded: under `data && n > 0` *)
